@@ -50,6 +50,19 @@ func makeHostNodes(dir string) ([]HostNode, error) {
 		return nil, err
 	}
 	nodes = append(nodes, HostNode{reg, "", 0, 0}, HostNode{filepath.Join(dir, "does-not-exist"), "missing", 0, 0})
+	// more things that are not device nodes: a symbolic link to one (the node itself
+	// is looked at, links are not followed), a directory, a dangling link
+	link, adir, dangling := filepath.Join(dir, "link-to-null"), filepath.Join(dir, "adir"), filepath.Join(dir, "dangling")
+	if err := os.Symlink(nodes[0].Path, link); err != nil {
+		return nil, err
+	}
+	if err := os.Mkdir(adir, 0o755); err != nil {
+		return nil, err
+	}
+	if err := os.Symlink(filepath.Join(dir, "nowhere"), dangling); err != nil {
+		return nil, err
+	}
+	nodes = append(nodes, HostNode{link, "", 0, 0}, HostNode{adir, "", 0, 0}, HostNode{dangling, "", 0, 0})
 	return nodes, nil
 }
 
